@@ -249,6 +249,10 @@ def run(chk, db):
     facts.gate(chk, db, ['nop/utility/bounded_reader.h', 'nop/utility/bounded_writer.h'])
     rules(chk, db)
     from .. import copyrules
+    from .. import rwrules
+    chk.rule('C', 'the library writers a BoundedWriter usually wraps move exactly the requested bytes with the requested padding value and advance by as much', minimum=6)
+    for rec in ('nop::BufferWriter', 'nop::PedanticBufferWriter', 'nop::ConstexprBufferWriter'):
+        rwrules.check_buffer_class(chk, db, rec, {'T': None, 'G': None, 'E': None, 'C': 'C'}, guard_required=False)
     copyrules.check(chk, db, 'CP', {'nop::BoundedReader', 'nop::BoundedWriter'}, minimum=4,
                     text='a copied / moved / assigned bounded wrapper keeps the consumed count, the limit and the wrapped object (the budget is not refreshed)')
     chk.explanation = (
